@@ -52,6 +52,7 @@ type WorldCfg struct {
 	LocalGCOff  bool  `json:"local_gc_off"`  // document.WithDisableGC on every replica
 	ServerGCOff bool  `json:"server_gc_off"` // Backend.Config.SnapshotDisableGC
 	ColdCache   bool  `json:"cold_cache"`    // remove the snapshot cache entry before every request
+	Evict       bool  `json:"evict"`         // touch a decoy document before every request (cache size 1)
 }
 
 // History is a replayable case.
@@ -96,18 +97,23 @@ type World struct {
 	// AfterStep is called after every executed step.
 	AfterStep func(w *World, st Step, r *replica.Replica)
 	Dead      bool // a sync failed: the history cannot continue meaningfully
+	// GuardVetoes counts steps the generator did not emit because of a known-finding fence.
+	GuardVetoes map[string]int64
+	// PreReq is called before every RPC the world issues.
+	PreReq func(w *World)
 }
 
 // NewWorld creates a world on a project (created by the caller for the cfg).
 func NewWorld(env *boot.Env, proj *types.Project, cfg WorldCfg, tag string) *World {
 	n := docSeq.Add(1)
 	return &World{
-		Env:     env,
-		Cfg:     cfg,
-		Project: proj,
-		DocKey:  key.Key(fmt.Sprintf("doc-%s-%d", tag, n)),
-		ctx:     context.Background(),
-		tag:     fmt.Sprintf("%s-%d", tag, n),
+		Env:         env,
+		Cfg:         cfg,
+		Project:     proj,
+		DocKey:      key.Key(fmt.Sprintf("doc-%s-%d", tag, n)),
+		ctx:         context.Background(),
+		tag:         fmt.Sprintf("%s-%d", tag, n),
+		GuardVetoes: map[string]int64{},
 	}
 }
 
@@ -138,6 +144,9 @@ func (w *World) Attached() []*replica.Replica {
 }
 
 func (w *World) preRequest() {
+	if w.PreReq != nil {
+		w.PreReq(w)
+	}
 	if w.Cfg.ColdCache {
 		if di, err := w.DocInfo(); err == nil {
 			w.Env.BE.Cache.Snapshot.Remove(di.RefKey())
